@@ -214,7 +214,7 @@ find_closest_mem_load(struct elfdump_priv *edp, kdump_paddr_t paddr,
 	for (i = 0; i < edp->num_load_sorted; i++) {
 		struct load_segment *pls = &edp->load_sorted[i];
 		if (pls->memsz && paddr <= pls->phys + pls->memsz - 1) {
-			if (paddr < pls->phys && pls->phys - paddr > dist)
+			if (paddr < pls->phys && pls->phys - paddr >= dist)
 				break;
 			return edp->last_load = pls;
 		}
@@ -242,7 +242,7 @@ find_closest_file_load(struct elfdump_priv *edp, kdump_paddr_t paddr,
 	for (i = 0; i < edp->num_load_sorted; i++) {
 		struct load_segment *pls = &edp->load_sorted[i];
 		if (pls->filesz && paddr <= pls->phys + pls->filesz - 1) {
-			if (paddr < pls->phys && pls->phys - paddr > dist)
+			if (paddr < pls->phys && pls->phys - paddr >= dist)
 				break;
 			return edp->last_load = pls;
 		}
@@ -270,7 +270,7 @@ find_closest_mem_vload(struct elfdump_priv *edp, kdump_vaddr_t vaddr,
 	for (i = 0; i < edp->num_load_vsorted; i++) {
 		struct load_segment *pls = &edp->load_vsorted[i];
 		if (pls->memsz && vaddr <= pls->virt + pls->memsz - 1) {
-			if (vaddr < pls->virt && pls->virt - vaddr > dist)
+			if (vaddr < pls->virt && pls->virt - vaddr >= dist)
 				break;
 			return edp->last_load = pls;
 		}
@@ -298,7 +298,7 @@ find_closest_file_vload(struct elfdump_priv *edp, kdump_vaddr_t vaddr,
 	for (i = 0; i < edp->num_load_vsorted; i++) {
 		struct load_segment *pls = &edp->load_vsorted[i];
 		if (pls->filesz && vaddr <= pls->virt + pls->filesz - 1) {
-			if (vaddr < pls->virt && pls->virt - vaddr > dist)
+			if (vaddr < pls->virt && pls->virt - vaddr >= dist)
 				break;
 			return edp->last_load = pls;
 		}
